@@ -26,8 +26,8 @@ def link(f, n, cs):
 
 def l2g(items):
     """Python twin of C16.Model.legacy_to_graph (checked against it inside Coq, corr code 9).  An item may carry
-    the legacy '?' suffix (optional): it becomes optional=True on the observe side; the model's graphs do not
-    carry the flag (a named observer is skipped where the trait is missing)."""
+    the legacy '?' suffix (optional): it becomes optional=True on the observe side and the optional flag of the
+    specification graph (C16.Model.ename carries it)."""
     names, s = items[0][0], items[0][1]
     opt = len(items[0]) > 2 and bool(items[0][2])
     if len(items) == 1:
@@ -53,7 +53,7 @@ def legacy_text(items):
 
 def graw(g):
     f, notify, _o, children = g
-    return C("G", [Nat(f)], bool(notify), not 6 <= f <= 8, [graw(c) for c in children])
+    return C("G", [Nat(f)], bool(notify), not 6 <= f <= 8, bool(_o), [graw(c) for c in children])
 
 
 def to_term(case, obs):
@@ -69,15 +69,20 @@ def to_term(case, obs):
                 x, f = c08.slot(key)
                 delta.append((Nat(x), Nat(f), c08.nats(v)))
         prev = ob["heap"]
-        o = C("Reg") if op[0] == "Reg" else C("Unreg") if op[0] == "Unreg" else C("Mut", c08.op_term(op))
+        if op[0] == "RegLazy":
+            vals = [a[1] for a in op[3]] if op[2] == 4 else list(op[3])
+            o = C("RegLazy", Nat(op[1]), Nat(op[2]), c08.nats(vals))
+        else:
+            o = C("Reg") if op[0] == "Reg" else C("Unreg") if op[0] == "Unreg" else C("Mut", c08.op_term(op))
         h.append((o, C("mkObs16", out, [(Nat(a), Nat(b)) for a, b in ob["ocalls"]],
                        [(Nat(a), Nat(b)) for a, b in ob["lcalls"]], delta)))
-    en = [(c08.nats(names), C("Dot" if s == "." else "Colon")) for names, s in (it[:2] for it in case["items"])]
+    en = [(c08.nats(it[0]), C("Dot" if it[1] == "." else "Colon"), len(it) > 2 and bool(it[2]))
+          for it in case["items"]]
     return (Nat(case["npool"]), Nat(case["root"]), en, [graw(g) for g in case["graphs"]], h)
 
 
 def opkind(op):
-    return op[0] if op[0] in ("Reg", "Unreg") else c08.opkind(op)
+    return op[0] if op[0] in ("Reg", "Unreg", "RegLazy") else c08.opkind(op)
 
 
 def key_fn(case, obs, step, clause):
@@ -300,10 +305,26 @@ def gen_case(rnd, ctx, maxmut):
             ops.append(["Probe", o])
         ctx.count("op:Probe", len(used))
 
+    first = items[0]
+    lazy = (not deferred and len(items) >= 2 and len(first[0]) == 1 and first[0][0] in (3, 4, 5)
+            and not any(f in (3, 4, 5) for it in items[1:] for f in it[0]) and rnd.random() < 0.6)
+    if lazy:
+        # the first link is a container whose default (a _name_default method) has content and has not been read
+        # when the handlers are registered: the legacy registration reads (materialises) it
+        f0 = first[0][0]
+        vs = [fresh() for _ in range(rnd.randint(1, 2))]
+        its = [[key, v] for key, v in zip(["a", "b"], vs)] if f0 == 4 else vs
+        sh.new_cont(0, f0, [list(a) for a in its] if f0 == 4 else list(its))
+        add(["RegLazy", 0, f0, its])
+        refresh()
+        probes()
+        add(["TouchItems", 0, f0, its])       # reading the trait now changes nothing
+        probes()
+        ctx.count("registration:lazy-default")
     if deferred:
         add(["Reg"])
     # a path along the name (most of the time), so that the walk reaches the final attribute
-    if rnd.random() < 0.75:
+    if not lazy and rnd.random() < 0.75:
         frontier = [0]
         for names in (it[0] for it in items[:-1]):
             nxt = []
@@ -334,7 +355,7 @@ def gen_case(rnd, ctx, maxmut):
         if m:
             add(m)
             refresh()
-    if not deferred:
+    if not deferred and not lazy:
         add(["Reg"])
     probes()
     registered = True
@@ -364,7 +385,7 @@ def gen_case(rnd, ctx, maxmut):
     if rnd.random() < 0.3:
         # a second legacy registration for the same name, removed by the first handler while a notification
         # round for the final attribute is in progress (armed at these Probe steps, fires at the first call)
-        reg_at = next(i for i, o in enumerate(ops) if o[0] == "Reg")
+        reg_at = next(i for i, o in enumerate(ops) if o[0] in ("Reg", "RegLazy"))
         probes_at = [i for i, o in enumerate(ops) if o[0] == "Probe" and i > reg_at]
         if probes_at:
             start = rnd.randrange(len(probes_at))
@@ -400,8 +421,11 @@ def check_hyps(ctx, cases):
     for c in cases:
         ops = []
         for op in c["ops"]:
-            if op[0] in ("Reg", "Unreg"):
-                ops += [C("Observe" if op[0] == "Reg" else "Unobserve", Nat(0), Nat(c["root"]), graw(g))
+            if op[0] == "RegLazy":
+                vals = [a[1] for a in op[3]] if op[2] == 4 else list(op[3])
+                ops.append(C("TouchItems", Nat(op[1]), Nat(op[2]), c08.nats(vals)))
+            if op[0] in ("Reg", "Unreg", "RegLazy"):
+                ops += [C("Unobserve" if op[0] == "Unreg" else "Observe", Nat(0), Nat(c["root"]), graw(g))
                         for g in c["graphs"]]
             else:
                 ops.append(c08.op_term(op))
